@@ -301,10 +301,12 @@ class C14(core.Check):
     # ---------- implementation ----------
     def run_impl(self, case):
         import urwid
+        # every gc.collect() below must only look at this case's objects: park everything that
+        # exists now (results kept by the pipeline included) in the permanent generation
         if not _frozen:
             gc.collect()
-            gc.freeze()
             _frozen.append(1)
+        gc.freeze()
         was = gc.isenabled()
         gc.disable()
         unraisable = []
